@@ -25,7 +25,7 @@ EXPLANATION = ('(a) Operators are constructed with jax.export symbolic dimension
 FUNCTIONS = ['AbstractLinearOperator.out_structure/in_size/out_size/in_promoted_dtype/out_promoted_dtype', 'square()', 'AdditionOperator/CompositionOperator/_AbstractLazyDualOperator structures',
              'AbstractBlockOperator/BlockRowOperator/BlockColumnOperator structures', 'IndexOperator._out_structure', 'every constructor that accepts symbolic dimensions']
 BOUNDS = {'quick': '(a) 27 operator constructions with symbolic dimensions (all sizes >= 1); (b) catalogue leaves, .T, closed-form .I, reduce(), 40 composites per family x 3 dtype/x64 configurations',
-          'thorough': '(b) 200 composites per family'}
+          'thorough': '(b) up to 3 000 composites per family'}
 STUBS = []
 ASSUMPTIONS = ['operators that reject symbolic dimensions (Reshape with -1, slices/ellipsis on a symbolic axis, Toeplitz signal axis) are covered by (b) only',
                'parameters no wider than the data dtype']
@@ -94,7 +94,7 @@ def cases(tier, seed):
         progs = list(base) + [('T', b) for b in base] + [('I', ('leaf', n, 0)) for n in c04.CLOSED_INV[fam]] + [('red', b) for b in base]
         comp = [e for e in c01.gen_programs(fam, 'quick', seed) if not c04._has_lazy(fam, e)]
         rnd.shuffle(comp)
-        comp = comp[: (200 if tier == 'thorough' else 40)]
+        comp = comp[: (40 if tier == 'quick' else 0)] if tier == 'quick' else [e for e in c01.gen_programs(fam, 'thorough', seed) if not c04._has_lazy(fam, e)][:3000]
         progs += comp + [('red', e) for e in comp[:20]]
         for e in progs:
             for cfg in (('f32', True), ('f32', False), ('f64', True)):
